@@ -49,7 +49,7 @@ def parse_model_line(line: str) -> dict:
         tm[int(k)] = tuple(sorted(set(filter(None, t.split("|")))))
     res = []
     for c in (calls.split(";;") if calls else []):
-        out, log = c.split(" @ ")
+        out, _, log = c.partition(" @")
         out = out.strip()
         events = []
         for ev in filter(None, log.strip().split(",")):
@@ -112,12 +112,20 @@ class Case:
 
 # ------------------------------------------------------------------------------------------- the three sides
 def run_three(ctx: Ctx, cases: list[Case]):
+    import time
+    t0 = time.time()
     model = [parse_model_line(l) for l in ctx.lean_driver("Driver/C01.lean", [c.lean for c in cases])]
     if len(model) != len(cases):
         raise ToolFailure(f"driver returned {len(model)} lines for {len(cases)} programs")
+    t1 = time.time()
     mres = R.check_batch({c.name: c.src for c in cases})
+    t2 = time.time()
     jobs = [{"name": c.name, "src": c.src, "calls": c.pycalls, "dead": mres[c.name]["dead"]} for c in cases]
     rres = R.run_batch(jobs, ctx.tmp)
+    t3 = time.time()
+    for k, v in (("lean_driver", t1 - t0), ("mypy", t2 - t1), ("cpython", t3 - t2)):
+        ctx.coverage.setdefault("wall_by_side_s", {}).setdefault(k, 0)
+        ctx.coverage["wall_by_side_s"][k] = round(ctx.coverage["wall_by_side_s"][k] + v, 1)
     return model, [mres[c.name] for c in cases], rres
 
 
